@@ -71,6 +71,9 @@ func runHistory(w *bufio.Writer, id int, profile string, seed uint64, nOps int, 
 			fmt.Fprintf(w, "ORDER %s\n", strings.Join(e.order, " "))
 		}
 		fmt.Fprintf(w, "EVH n=%d h=%x\n", nev, evh.Sum(nil)[:8])
+		if res.Class != "blockerr" && res.Class != "panic" && res.Class != "generr" && o.Kind != "QUERY" {
+			fmt.Fprintf(w, "MINV %s\n", e.moduleInvariants())
+		}
 		for _, l := range e.Dump() {
 			fmt.Fprintln(w, l)
 		}
